@@ -231,14 +231,31 @@ def main():
             hit = FORBIDDEN.search(strip_lean_comments(open(module_file(m)).read()))
             if hit:
                 raise InternalError('forbidden token %r in %s' % (hit.group(0), m))
-        # 3. correspondence + oracles
-        mod.run(ctx)
+        # 3. correspondence + oracles.  An exception that escapes the property module (raised by the implementation, or by the
+        # harness because the implementation returned something the correspondence cannot work with) means the correspondence
+        # no longer checks: it is recorded as a disagreement (-> failing-input search, else `no-failing-input-found`), not as
+        # an internal error.  Time-outs and failures of the Lean build / audit stay internal errors (exit 2).
+        try:
+            mod.run(ctx)
+        except (subprocess.TimeoutExpired, KeyboardInterrupt, MemoryError, InternalError):
+            raise
+        except Exception as e:
+            tb = traceback.format_exc()
+            sys.stderr.write(tb)
+            ctx.disagree('the correspondence run of %s could not be completed: %s: %s' % (pid, type(e).__name__, str(e)[:300]),
+                         dict(exception=type(e).__name__, message=str(e)[:2000], traceback=tb[-4000:]), sig='correspondence-aborted:%s' % type(e).__name__)
         # 4. decision
         findings = [f for f in load_findings()['findings'] if f['property'] == pid]
         open_f = [f for f in findings if f.get('status') == 'open']
         need_search = bool(broken_reasons or ctx.disagreements)
         if need_search and not ctx.violations and hasattr(mod, 'search'):
-            mod.search(ctx, broken_reasons + [d['what'] for d in ctx.disagreements])
+            try:
+                mod.search(ctx, broken_reasons + [d['what'] for d in ctx.disagreements])
+            except (subprocess.TimeoutExpired, KeyboardInterrupt, MemoryError, InternalError):
+                raise
+            except Exception as e:
+                sys.stderr.write(traceback.format_exc())
+                ctx.note('failing-input search aborted: %s: %s' % (type(e).__name__, str(e)[:300]))
         new_viol, known_hit = [], {}
         for v in ctx.violations:
             f = next((f for f in open_f if re.fullmatch(f['signature'], v['sig'])), None)
